@@ -268,6 +268,17 @@ pub fn c01(opts: &Opts) -> Report {
     if want(opts, "timer") {
         run_family(&mut rep, opts, &FamilyRun { prop: "C01", part: "timer", cases: opts.n(if cfg!(miri) { 3 } else { 250 }, 6000), gen: &|s| gen::gen_timer(s, &to), set: ExecSet::Full, pools: &[TIME_SITES, EXECUTOR_SITES], nontrivial: &|s, _| s.time_moves > 0 && s.handlers > 0, predict: true, also: &[] });
     }
+    if want(opts, "threads") {
+        // Scheduler handles used from other threads while the simulation steps
+        // (the workload of C08): time must never decrease and no accepted
+        // action may be left pending at or before the current time.
+        let n = if cfg!(miri) { 2 } else { opts.n(240, 2400) };
+        for case in 0..n {
+            if opts.mine(case) {
+                crate::props::c08::threaded_case(&mut rep, opts, case, "C01");
+            }
+        }
+    }
     if want(opts, "dag") {
         run_family(&mut rep, opts, &FamilyRun { prop: "C01", part: "dag", cases: opts.n(if cfg!(miri) { 2 } else { 120 }, 3000), gen: &|s| gen::gen_dag(s, &dopt), set: ExecSet::Full, pools: &[TIME_SITES, EXECUTOR_SITES], nontrivial: &|s, _| s.time_moves > 0 && s.handlers > 0, predict: true, also: &[] });
     }
@@ -365,10 +376,12 @@ pub fn c09(opts: &Opts) -> Report {
 
 pub fn c10(opts: &Opts) -> Report {
     let mut rep = Report::new("C10");
-    let mut to = timer_opts(opts);
-    to.cancel = false;
+    let to = timer_opts(opts);
+    // Cancellations of *other* actions are kept: a periodic series must be
+    // unaffected by them (a cancelled action at the head of the queue is what
+    // `step_until` has to skip without overshooting its target).
     if want(opts, "timer") {
-        run_family(&mut rep, opts, &FamilyRun { prop: "C10", part: "timer", cases: opts.n(if cfg!(miri) { 4 } else { 300 }, 8000), gen: &|s| gen::gen_timer(s, &to), set: ExecSet::StOnly, pools: &[], nontrivial: &|s, sp| s.handlers > 0 && format!("{:?}", sp.cmds).contains("period: Some") || format!("{:?}", sp.nodes).contains("period: Some"), predict: true, also: &["C08"] });
+        run_family(&mut rep, opts, &FamilyRun { prop: "C10", part: "timer", cases: opts.n(if cfg!(miri) { 4 } else { 600 }, 8000), gen: &|s| gen::gen_timer(s, &to), set: ExecSet::StOnly, pools: &[], nontrivial: &|s, sp| s.handlers > 0 && format!("{:?}", sp.cmds).contains("period: Some") || format!("{:?}", sp.nodes).contains("period: Some"), predict: true, also: &["C08", "C09", "C01"] });
     }
     rep
 }
@@ -394,6 +407,9 @@ pub fn c18(opts: &Opts) -> Report {
     }
     if want(opts, "faults") {
         c18_faults(&mut rep, opts, &to);
+    }
+    if want(opts, "gated") {
+        crate::props::c18g::run(&mut rep, opts);
     }
     rep
 }
